@@ -129,6 +129,8 @@ def run(ctx):
                 "what": "abstract predicate %s false on the real chain" % w, "event": ev,
                 "expected": (f.get("ctx") or {}).get("expected")})
     steps_stage(ctx, res)
+    if res.get("stats", {}).get("aborted") and not ctx.violations:
+        raise vlib.Inconclusive("the driver had to stop (%s) and nothing recorded before is a violation" % res["stats"]["aborted"])
     ctx.assumptions += [
         "AppExecResult.Events of a FAULTed transaction (diagnostic application log, asserted by the repository's own tests to "
         "retain the notifications emitted before the fault) is not judged; judged instead: nothing is delivered to "
